@@ -12,7 +12,7 @@ func init() {
 	verifRegister("VerifC13_FirstUse", VerifC13_FirstUse)
 }
 
-const verifNShared = 16
+const verifNShared = 17
 
 func verifSharedCase(k int) (s any, ops func(i int)) {
 	switch k {
@@ -123,6 +123,24 @@ func verifSharedCase(k int) (s any, ops func(i int)) {
 			}
 			_ = rebuilt.ValidateCompatibility(map[string]any{"t": int64(i)})
 		}
+	case 16: // three levels of struct-mapped objects: the default of root.sub covers every defaulted direct member of
+		// Sub, and Sub has a nested sub-object with a default of its own (merged into a copy, never into the schema)
+		inner := NewStructMappedObjectSchema[verifC13Inner]("inner", map[string]*PropertySchema{
+			"level": NewPropertySchema(NewIntSchema(nil, nil, nil), nil, false, nil, nil, nil, verifStrPtr("3"), nil),
+		})
+		sub := NewStructMappedObjectSchema[verifC13Sub]("sub", map[string]*PropertySchema{
+			"name":  NewPropertySchema(NewStringSchema(nil, nil, nil), nil, false, nil, nil, nil, verifStrPtr(`"anonymous"`), nil),
+			"inner": NewPropertySchema(inner, nil, false, nil, nil, nil, nil, nil),
+		})
+		root := NewStructMappedObjectSchema[verifC13Root]("root", map[string]*PropertySchema{
+			"sub": NewPropertySchema(sub, nil, false, nil, nil, nil, verifStrPtr(`{"name":"configured"}`), nil),
+		})
+		return root, func(i int) {
+			u, err := root.Unserialize(map[string]any{})
+			if err == nil {
+				_, _ = root.Serialize(u)
+			}
+		}
 	case 14: // schema-mode compatibility and self-description (the package-level meta-schema is shared state)
 		o := NewScopeSchema(NewObjectSchema("O", map[string]*PropertySchema{
 			"a": NewPropertySchema(NewIntSchema(nil, nil, UnitBytes), nil, true, nil, nil, nil, nil, nil),
@@ -190,3 +208,14 @@ func VerifC13_FirstUse() {
 func VerifC13_StepCallsIsolated() { verifStepDataRace("C13/stepcalls") }
 
 func init() { verifRegister("VerifC13_StepCallsIsolated", VerifC13_StepCallsIsolated) }
+
+type verifC13Inner struct {
+	Level int64 `json:"level"`
+}
+type verifC13Sub struct {
+	Name  string        `json:"name"`
+	Inner verifC13Inner `json:"inner"`
+}
+type verifC13Root struct {
+	Sub verifC13Sub `json:"sub"`
+}
